@@ -29,7 +29,7 @@ def translate(ctx):
 
 
 MODEL = ("Model.C14_finder", "run_C14")
-COQ_TARGETS = ["Proofs/C14_finder.vo", "Proofs/C14_order.vo", "Proofs/C14_import.vo", "Proofs/C14_pth.vo", "Proofs/C14_ns.vo", "Proofs/C14_bypath.vo", "Proofs/C14_nsload.vo", "Proofs/C14_nsinv.vo", "Proofs/C14_nsorder.vo"]
+COQ_TARGETS = ["Proofs/C14_finder.vo", "Proofs/C14_order.vo", "Proofs/C14_import.vo", "Proofs/C14_pth.vo", "Proofs/C14_ns.vo", "Proofs/C14_bypath.vo", "Proofs/C14_nsload.vo", "Proofs/C14_nsinv.vo", "Proofs/C14_nsorder.vo", "Proofs/C14_state.vo"]
 
 EXT_SUFFIX = ".cpython-312-x86_64-linux-gnu.so"
 
@@ -1430,7 +1430,13 @@ def gen_process_layout(rng):
         rng.choice([d0, d1]).append(["bb-stubs", D([["c.pyi", F()]] + ([["a.pyi", F()]] if rng.random() < 0.5 else []))])
     if rng.random() < 0.5:
         d1.append(["cc", D([["__init__.py", F()], ["k.pyc", F()], ["k2.py", F()]])])
-    return {"dirs": [[0, d0], [1, d1]], "search": [0, 1], "name": "aa"}
+    # a directory that is not searched: a request by the path of a package in it makes the loader search it, first
+    d2 = [["ee", D([["__init__.py", F()], ["e.py", F()]])]]
+    if rng.random() < 0.6:
+        d2.append(["aa", D([["__init__.py", F()], ["other.py", F()]])])
+    if rng.random() < 0.4:
+        d2.append(["bb", D([["z.py", F()]])])
+    return {"dirs": [[0, d0], [1, d1], [2, d2]], "search": [0, 1], "name": "aa"}
 
 
 def gen_history(rng):
@@ -1439,8 +1445,13 @@ def gen_history(rng):
     if nload > 1 and all(l["allow_inspection"] for l in loaders):
         loaders[0]["allow_inspection"] = False
     steps = []
-    for _ in range(rng.randint(2, 5)):
-        steps.append({"loader": rng.randrange(nload), "name": rng.choice(["aa", "aa", "bb", "bb", "cc"]), "stubs": rng.random() < 0.45})
+    for _ in range(rng.randint(2, 6)):
+        st = {"loader": rng.randrange(nload), "name": rng.choice(["aa", "aa", "bb", "bb", "cc", "ee"]), "stubs": rng.random() < 0.4}
+        if rng.random() < 0.25:
+            # by the path of a top-level directory (searched or not), of a nested directory, of a missing one
+            st = {"loader": st["loader"], "name": "", "stubs": False,
+                  "path": rng.choice([[0, ["aa"]], [1, ["bb"]], [2, ["ee"]], [2, ["ee"]], [2, ["aa"]], [2, ["bb"]], [0, ["aa", "sub"]], [2, ["nope"]]])}
+        steps.append(st)
     return {"loaders": loaders, "steps": steps}
 
 
@@ -1450,7 +1461,10 @@ def _run_step(loaders, cache, step, base, search):
     if k not in cache:
         cache[k] = griffe.GriffeLoader(search_paths=search, allow_inspection=loaders[k]["allow_inspection"])
     try:
-        top = cache[k].load(step["name"], try_relative_path=False, find_stubs_package=step["stubs"])
+        if step.get("path"):
+            top = cache[k].load(root_dir(base, step["path"][0]).joinpath(*step["path"][1]))
+        else:
+            top = cache[k].load(step["name"], try_relative_path=False, find_stubs_package=step["stubs"])
         while top.parent is not None:
             top = top.parent
         return ["ok", tree_of(top, base)]
@@ -1510,7 +1524,19 @@ def history_worker():
     json.dump(out, sys.stdout)
 
 
-def process_history_stream(ctx, n_layouts, tag="proc"):
+def history_requests(layout, h):
+    """the history as requests of the model's state machine (Model/C14_finder.v: step): loaders are created at first use"""
+    reqs, seen, index = [], set(), []
+    for st in h["steps"]:
+        if st["loader"] not in seen:
+            seen.add(st["loader"])
+            reqs.append(["new", st["loader"], layout["search"]])
+        index.append(len(reqs))
+        reqs.append(["path", st["loader"], st["path"]] if st.get("path") else ["name", st["loader"], st["name"]])
+    return reqs, index
+
+
+def process_history_stream(ctx, n_layouts, tag="proc", model=None):
     from harness.common import framework
     scratch = ctx.scratch / tag
     scratch.mkdir(parents=True, exist_ok=True)
@@ -1524,12 +1550,17 @@ def process_history_stream(ctx, n_layouts, tag="proc"):
          "steps": [{"loader": 0, "name": "bb", "stubs": False}, {"loader": 1, "name": "aa", "stubs": False}, {"loader": 1, "name": "bb", "stubs": False}]},
         {"loaders": [{"allow_inspection": True}, {"allow_inspection": False}],
          "steps": [{"loader": 0, "name": "aa", "stubs": True}, {"loader": 1, "name": "aa", "stubs": False}, {"loader": 0, "name": "aa", "stubs": False}]},
+        # by path of a package in a directory that is not searched: that loader searches it first from then on, the other loader does not
+        {"loaders": [{"allow_inspection": False}, {"allow_inspection": False}],
+         "steps": [{"loader": 0, "name": "ee", "stubs": False}, {"loader": 0, "name": "", "stubs": False, "path": [2, ["ee"]]},
+                   {"loader": 0, "name": "ee", "stubs": False}, {"loader": 0, "name": "aa", "stubs": False}, {"loader": 1, "name": "ee", "stubs": False},
+                   {"loader": 1, "name": "aa", "stubs": False}, {"loader": 0, "name": "", "stubs": False, "path": [0, ["aa", "sub"]]}]},
     ]
     for k in range(n_layouts):
         layout = gen_process_layout(ctx.rng)
         base = scratch / f"p{k}"
         materialise(layout, base)
-        for h in ([fixed[k % len(fixed)]] if k < 2 * len(fixed) else []) + [gen_history(ctx.rng) for _ in range(2)]:
+        for h in ([fixed[k % len(fixed)]] if k < 3 * len(fixed) else []) + [gen_history(ctx.rng) for _ in range(2)]:
             jobs.append({"base": str(base), "search": layout["search"], "order": order_map(layout, base), "history": h})
             meta.append((layout, h))
     env = {k: v for k, v in os.environ.items()}
@@ -1540,7 +1571,11 @@ def process_history_stream(ctx, n_layouts, tag="proc"):
     if p.returncode != 0:
         ctx.tie_failure("harness", "process-history worker", p.stderr[-800:], None)
         return
-    for (layout, h), res in zip(meta, json.loads(p.stdout)):
+    # the model's state machine on the same histories (C14_history_independent: = the stateless reference)
+    m_out = [None] * len(meta)
+    if model is not None:
+        m_out = model([["history", abstract_case(layout), history_requests(layout, h)[0]] for layout, h in meta])
+    for (layout, h), res, mo in zip(meta, json.loads(p.stdout), m_out):
         ctx.case({"layout": layout, "history": h}, True)
         ctx.observe("stream", "process-history")
         ctx.observe("history_loaders", len(h["loaders"]))
@@ -1548,9 +1583,25 @@ def process_history_stream(ctx, n_layouts, tag="proc"):
         if not isinstance(got, list) or len(got) != len(h["steps"]) or (got and got[0] == "child-error"):
             ctx.tie_failure("harness", "process-history child", got, layout)
             continue
+        index = history_requests(layout, h)[1]
         for pos, (st, a, b) in enumerate(zip(h["steps"], got, fresh)):
             insp = h["loaders"][st["loader"]]["allow_inspection"]
-            ctx.observe("process_history_step", f"{'inspect' if insp else 'static'}:{'stubs' if st['stubs'] else 'plain'}:{a[0]}")
+            kind = "path" if st.get("path") else ("stubs" if st["stubs"] else "plain")
+            ctx.observe("process_history_step", f"{'inspect' if insp else 'static'}:{kind}:{a[0]}")
+            own_paths = True
+            if isinstance(mo, list) and len(mo) == 2:
+                own_paths = bool(mo[1][index[pos]])
+                ma = mo[0][index[pos]]
+                # (C) the state machine against the implementation inside the history: static loaders, no stubs package
+                if not insp and not st["stubs"] and ma != ["unsupported"]:
+                    ctx.count("history_steps_vs_model")
+                    if canon_model_load(ma) != a:
+                        ctx.tie_failure("correspondence", "state machine step (model) vs GriffeLoader in a history",
+                                        {"position": pos, "request": st, "impl": a, "model": canon_model_load(ma), "history": h}, {**layout, "name": st["name"] or "aa"})
+            if not own_paths:
+                # an earlier request by path made this loader search another directory (by design): the fresh process is not the reference
+                ctx.observe("process_history_step", "after-a-path-request-added-a-search-directory")
+                continue
             if a != b:
                 ctx.property_failure({"case": {**layout, "name": st["name"]}, "check": "process-history", "history": h, "position": pos},
                                      {"request": st, "loader_options": h["loaders"][st["loader"]], "position": pos,
@@ -1561,7 +1612,7 @@ def process_history_stream(ctx, n_layouts, tag="proc"):
 # ---------------------------------------------------------------------------------------------------------------
 # The check
 # ---------------------------------------------------------------------------------------------------------------
-LEVEL_TEXT = ("Coq theorems (20, all closed under the global context) over an executable model of finder.py / loader.py discovery, for all layouts, search-path lists "
+LEVEL_TEXT = ("Coq theorems (22, all closed under the global context) over an executable model of finder.py / loader.py discovery, for all layouts, search-path lists "
               "and listing orders: (1) find_package = CPython's PathFinder/FileFinder precedence on source-form layouts (three exclusions shown necessary), also end to end on "
               "the .pth-extended search paths; find_package is listing-order independent; (2) the .pth extension of the search paths IS site.addsitedir's (modulo the cwd-fallback "
               "line kept by the repair of F6 and a file called exactly '.pth') and is listing-order independent (sorted() = insertion sort, insertions of different names commute); "
@@ -1574,7 +1625,9 @@ LEVEL_TEXT = ("Coq theorems (20, all closed under the global context) over an ex
               "dotted name to, or a stub where CPython has no regular module, on source-form trees, again without no_clash; (6) the repaired iter_submodules over a list of portions "
               "never yields two source files of one name and suffix from different portions, nor anything from inside a folder that another portion provides as a regular package "
               "(the shapes of the former findings F8, F3, F10), for every universe and every list of portions; (7) load by the path of a top-level directory (or of its __init__ file) "
-              "of any search directory = load by name (finder._module_name_path / _top_module_name are in the model); (8) static loading is total. "
+              "of any search directory = load by name (finder._module_name_path / _top_module_name are in the model); (8) static loading is total; (9) history independence: a process with several loaders (search paths, memo of listings, collection of loaded packages per loader -- the fields a census "
+              "regenerated from the source finds) answers EVERY history of requests (new loader, by name, by path) like the stateless reference, which only looks at the addressed loader's own search paths and the "
+              "requests by path addressed to it; a loader that served only requests by name answers like a fresh process. "
               "Ten defects were repaired in /repo (F1-F5, F7-F10 and F6 for lines relative to the .pth file); one remains known (F6, cwd fallback, pinned by an upstream test), refuted by a "
               "machine-checked witness with a decidable shape predicate. The model is tied to the code by differential runs (Griffe under wrapped os.scandir/os.listdir vs model vs CPython "
               "in a subprocess) on four observables per listing order: search paths + top-level answer, the ORDERED finder.submodules() list, the loaded tree, and loads by path.")
@@ -1605,7 +1658,8 @@ ASSUMPTIONS = ["allow_inspection=False; files are empty (or a pkgutil namespace 
                "a file called exactly '.pth' is outside the domain (site of CPython 3.12.1 reads it, pathlib gives it no suffix; newer CPythons skip hidden .pth files): generated, counted as scope",
                "the portions of a namespace package are distinct directories; search directories are not nested in one another",
                "the oracle runs python -S without setuptools: pkg_resources.declare_namespace is emulated there by pkgutil.extend_path (a stub module next to the oracle script)",
-               "the process-history and symlink streams are direct checks (implementation vs itself in a fresh process / vs CPython): loader state, options and links are not in the Coq model",
+               "process histories: static, stubs-less requests (by name, by path) are in the Coq model (state machine, C14_history_independent) and compared step by step; find_stubs_package and inspection steps, "
+               "and the symlink stream, are direct checks only (implementation vs itself in a fresh process / vs CPython)",
                "pkg-style namespace declarations are generated in seven spellings (__import__('pkgutil'/'pkg_resources') with either quote, from pkgutil import extend_path, "
                "import pkgutil, import pkg_resources); other ways of extending __path__ are outside the generated domain"]
 
@@ -1748,7 +1802,7 @@ def null_model(values):
     """Stand-in when the extracted model is unavailable: implementation vs CPython only."""
     out = []
     for v in values:
-        out.append({"find": None, "load": None, "paths": [None, None], "pyfind": None, "pywalk": [], "gaps": None, "pyimport": None, "subs": None, "nsok": None, "domain": None, "bypath": None}[v[0]])
+        out.append({"find": None, "load": None, "paths": [None, None], "pyfind": None, "pywalk": [], "gaps": None, "pyimport": None, "subs": None, "nsok": None, "domain": None, "bypath": None, "history": None}[v[0]])
     return out
 
 
@@ -1778,7 +1832,7 @@ def explore(ctx):
         k += 1
     history_stream(ctx, ctx.budget(40, 400), model, "hist")
     symlink_stream(ctx, ctx.budget(60, 600))
-    process_history_stream(ctx, ctx.budget(24, 240))
+    process_history_stream(ctx, ctx.budget(24, 240), model=model)
     if not ctx.quick:
         sample = []
         for c in targeted_cases()[:20]:
